@@ -65,39 +65,42 @@ Inductive path :=
 | PArg             (* f(e) / default      VariableManager::assign_function_parameter -> assign_variable *)
 | PGlobalScalar    (* T g = c;            declare_global_variable / interpreter.cpp:493: clamp, check *)
 | PStatic          (* static T x = e;     declaration checks a clamped copy, StaticVariableManager::create_static_variable stores evaluate(init) raw *)
-| PIncDecVar       (* x++ ++x x-- --x     incdec.cpp evaluate_incdec: var->value += 1, no check *)
-| PIncDecElem1     (* a[i]++ ...          incdec.cpp: array_values[i] += 1, no check; read narrows *)
-| PReturn          (* return e;           call_impl.cpp:6822 clamps a negative result of an unsigned function; the declared result type is never consulted for a range check *)
+| PIncDecVar       (* x++ ++x x-- --x     incdec.cpp evaluate_incdec (fix 892a98c): clamp, check_type_range, then store *)
+| PIncDecElem1     (* a[i]++ ...          incdec.cpp (fix 1b2d709): clamp, check on the raw stored element; read narrows *)
+| PReturn          (* return e;           call_impl.cpp return site (fix d7775cd): unsigned clamp, check against func->return_types[0] *)
+| PReturnElemN     (* return m[i][j];     same site, but a value the pointer heuristic takes for an address (ret.type = TYPE_POINTER) skips the check *)
 | PElem1           (* a[i] = e;           CommonOperations::assign_array_element_safe: clamp, check; read narrows *)
 | PElem1Compound   (* a[i] op= e;         same store as PElem1 (old value read through the narrowing read) *)
-| PElemN           (* m[i][j] = e;        ArrayManager::setMultidimensionalArrayElement: clamp only *)
-| PLit1            (* T[n] a = [..];      ArrayManager (arrays/manager.cpp), 1-D literal loop of the array declaration: clamp only; read narrows *)
-| PLitN            (* T[n][m] a = [[..]]; ArrayManager::processArrayLiteralRecursive: clamp only *)
-| PGlobalArr       (* global T[n] a=[..]; CommonOperations::assign_array_literal_to_variable, and a global array has lost is_unsigned: no clamp at all *)
+| PElemN           (* m[i][j] = e;        ArrayManager::setMultidimensionalArrayElement (fix a6c628c): clamp, check *)
+| PLit1            (* T[n] a = [..];      ArrayManager (arrays/manager.cpp), 1-D literal loop of the array declaration (fix 11769f3): clamp, check; read narrows *)
+| PLitN            (* T[n][m] a = [[..]]; ArrayManager::processArrayLiteralRecursive (fix 11769f3): clamp, check *)
+| PGlobalArr       (* global T[n] a=[..]; CommonOperations::assign_array_literal_to_variable, and a global array has lost is_unsigned: no clamp, no check *)
 | PAssignFromElemN (* x = m[i][j];        the value passes consume_numeric_typed_value: pointer-looking values skip the check *).
 
 (* the value a later read of the cell yields (what the property speaks about), or the error *)
 Definition mech_store (p : path) (t : ty) (v : Z) : ctl Z :=
   match p with
-  | PDecl | PAssign | PCompound | PArg | PGlobalScalar => clamp_check t v
+  | PDecl | PAssign | PCompound | PArg | PGlobalScalar | PIncDecVar | PReturn | PElemN | PLitN => clamp_check t v
   | PStatic => match clamp_check t v with Val _ => Val v | other => other end
-  | PIncDecVar => Val v
-  | PReturn => Val (mech_clamp (uns t) v)
-  | PIncDecElem1 => Val (narrow_read t v)
-  | PElem1 | PElem1Compound => match clamp_check t v with Val w => Val (narrow_read t w) | other => other end
-  | PElemN | PLitN => Val (mech_clamp (uns t) v)
-  | PLit1 => Val (narrow_read t (mech_clamp (uns t) v))
+  | PElem1 | PElem1Compound | PIncDecElem1 | PLit1 =>
+      match clamp_check t v with Val w => Val (narrow_read t w) | other => other end
   | PGlobalArr => Val (narrow_read t v)
-  | PAssignFromElemN => if looks_like_pointer v then Val (mech_clamp (uns t) v) else clamp_check t v
+  | PAssignFromElemN | PReturnElemN => if looks_like_pointer v then Val (mech_clamp (uns t) v) else clamp_check t v
   end.
 
-(* a[i] op= d and a[i]++ compute from the narrowed old value *)
+(* a[i] op= d computes from the narrowed old value (the element is read as an expression);
+   a[i]++ / a[i]-- compute from the stored element itself *)
 Definition mech_elem1_update (p : path) (t : ty) (old delta : Z) : ctl Z :=
-  mech_store p t (narrow_read t old + delta).
+  match p with
+  | PIncDecElem1 => mech_store p t (old + delta)
+  | _ => mech_store p t (narrow_read t old + delta)
+  end.
 
-Definition checked_paths : list path := [PDecl; PAssign; PCompound; PArg; PGlobalScalar].
+Definition checked_paths : list path := [PDecl; PAssign; PCompound; PArg; PGlobalScalar; PIncDecVar; PReturn; PElemN; PLitN].
+(* 1-D element storage: as demanded up to the narrowing read *)
+Definition element_paths : list path := [PElem1; PElem1Compound; PIncDecElem1; PLit1].
 Definition unchecked_paths : list path :=
-  [PStatic; PIncDecVar; PIncDecElem1; PReturn; PElem1; PElem1Compound; PElemN; PLit1; PLitN; PGlobalArr; PAssignFromElemN].
+  [PStatic; PElem1; PElem1Compound; PIncDecElem1; PLit1; PGlobalArr; PAssignFromElemN; PReturnElemN].
 
 (* the documented ranges (docs/spec.md "基本型"): n-bit two's complement / n-bit unsigned *)
 Definition bits_of (b : ity) : option Z :=
